@@ -206,6 +206,11 @@ def judge(rec, T, case, nontrivial=True, parse_produced=True, synthesized=True):
             and findings.by_id(KF_FSTR) and findings.fstring_hard(T0):
         rec.known_finding(KF_FSTR)
         return
+    if case.get("kind") == "longf":
+        try:
+            case = {"kind": "src", "src": ast.unparse(T0)}
+        except Exception:
+            pass
     rec.violation(symptom, case, {"text": out, "events": ev[:1]})
 
 
@@ -303,6 +308,22 @@ def run_shard(rec):
         pname, T = pl[r2.randrange(len(pl))]
         judge(rec, T, {"kind": "str", "s": s, "placement": pname}, parse_produced="\ud800" not in s)
         rec.count("random-strings")
+    # 5b. long random f-strings: many pieces, hostile literal parts between fields of every shape
+    nlong = (6000 if tier == "quick" else 80000) // (4 if other else 1)
+    specs = list(SPEC_SHAPES.values())
+    lits = list(NESTED_LITS.values())
+    safe_pool = [c for c in pool if c not in ("\ud800",)]
+    for i in range(nlong // rec.nshards):
+        vals = []
+        for _ in range(r2.randint(3, 14)):
+            if r2.random() < 0.5:
+                vals.append(K("".join(r2.choice(safe_pool) for _ in range(r2.randint(1, 5)))))
+            else:
+                lit = r2.choice(lits)
+                vals.append(FV(lit(), r2.choice([-1, -1, ord("r"), ord("s"), ord("a")]), r2.choice(specs)(lit())))
+        judge(rec, JS(*vals), {"kind": "longf", "i": i, "shard": rec.shard, "nshards": rec.nshards, "seed": rec.seed,
+                               "src": None})
+        rec.count("long-random-fstrings")
     # 6. corpus literals
     files = exprs.stdlib_files()
     random.Random(rec.seed + 9).shuffle(files)
